@@ -59,23 +59,24 @@ type Scenario struct {
 	MaxTCPQ   int      `json:"max_tcp_queries,omitempty"`
 	Clients   []Client `json:"clients"`
 
-	ServeAfter int    `json:"serve_after,omitempty"`
-	Start2     bool   `json:"start2,omitempty"`
-	Early      bool   `json:"early_shutdown,omitempty"` // a Shutdown issued before the server is started
-	FailStart  string `json:"fail_start,omitempty"`     // a ListenAndServe that cannot succeed (bogus network / TLS without certificate) is attempted first
-	UDPSock    bool   `json:"udp_sock,omitempty"`       // udp: the server runs on a UDP socket (SessionUDP branch) where the build has that seam
-	PostYield  bool   `json:"post_yield,omitempty"`     // the return of every transport operation is a scheduling point of its own
-	Spare      bool   `json:"spare_listener,omitempty"` // a udp server is also given a Listener it does not serve on
-	ShutKind   string `json:"shut_kind"`                // plain | ctx
-	ShutAfter  int    `json:"shut_after"`
-	CtxMs      int    `json:"ctx_ms,omitempty"`
-	Transient  []int  `json:"transient,omitempty"`      // these accept / datagram-read attempts fail with a temporary, non-timeout error
-	OwnErr     bool   `json:"own_closed_err,omitempty"` // tcp / tls: Accept on the closed listener fails with an error of the listener's own, not net.ErrClosed
-	CloseErr   bool   `json:"close_err,omitempty"`      // tcp / tls: closing the listener reports an error (it is closed all the same)
-	Listen     bool   `json:"listen,omitempty"`         // the server is started with ListenAndServe (socket seam of the instrumented build) instead of ActivateAndServe
-	ReuseOpts  int    `json:"reuse_opts,omitempty"`     // ListenAndServe: bit 0 ReusePort, bit 1 ReuseAddr
-	ShutB      bool   `json:"shutdown_b,omitempty"`     // a second, concurrent Shutdown
-	Shut3      bool   `json:"shutdown_3,omitempty"`     // a Shutdown after the first has returned
+	ServeAfter  int    `json:"serve_after,omitempty"`
+	Start2      bool   `json:"start2,omitempty"`
+	Early       bool   `json:"early_shutdown,omitempty"` // a Shutdown issued before the server is started
+	FailStart   string `json:"fail_start,omitempty"`     // a ListenAndServe that cannot succeed (bogus network / TLS without certificate) is attempted first
+	UDPSock     bool   `json:"udp_sock,omitempty"`       // udp: the server runs on a UDP socket (SessionUDP branch) where the build has that seam
+	PostYield   bool   `json:"post_yield,omitempty"`     // the return of every transport operation is a scheduling point of its own
+	Spare       bool   `json:"spare_listener,omitempty"` // a udp server is also given a Listener it does not serve on
+	ShutKind    string `json:"shut_kind"`                // plain | ctx
+	ShutAfter   int    `json:"shut_after"`
+	CtxMs       int    `json:"ctx_ms,omitempty"`
+	Transient   []int  `json:"transient,omitempty"`      // these accept / datagram-read attempts fail with a temporary, non-timeout error
+	FatalAccept int    `json:"fatal_accept,omitempty"`   // tcp / tls: from this Accept attempt on (1-based) the listener fails with a permanent, non-temporary error: the serve call may end with that error, everything else the property says still holds
+	OwnErr      bool   `json:"own_closed_err,omitempty"` // tcp / tls: Accept on the closed listener fails with an error of the listener's own, not net.ErrClosed
+	CloseErr    bool   `json:"close_err,omitempty"`      // tcp / tls: closing the listener reports an error (it is closed all the same)
+	Listen      bool   `json:"listen,omitempty"`         // the server is started with ListenAndServe (socket seam of the instrumented build) instead of ActivateAndServe
+	ReuseOpts   int    `json:"reuse_opts,omitempty"`     // ListenAndServe: bit 0 ReusePort, bit 1 ReuseAddr
+	ShutB       bool   `json:"shutdown_b,omitempty"`     // a second, concurrent Shutdown
+	Shut3       bool   `json:"shutdown_3,omitempty"`     // a Shutdown after the first has returned
 }
 
 func Gen(seed uint64, tier string) any {
@@ -163,6 +164,10 @@ func Gen(seed uint64, tier string) any {
 		if core.Chance(r, 40) {
 			sc.Transient = append(sc.Transient, sc.Transient[0]+1+r.IntN(2))
 		}
+	}
+	if sc.Transport != "udp" && len(sc.Transient) == 0 && !sc.Start2 && !sc.Early && sc.FailStart == "" && core.Chance(r, 6) {
+		// (not together with a second start: the serve call that ends early would let the second one begin after the shutdown - a restart, which the property does not cover)
+		sc.FatalAccept = 1 + r.IntN(3)
 	}
 	return sc
 }
@@ -1027,6 +1032,9 @@ func runIn(sc *Scenario, res *core.Result, verbose bool) {
 	}
 	if x.l != nil {
 		x.l.OwnClosedErr = sc.OwnErr
+		if sc.Transport != "udp" && !sc.Start2 && !sc.Early && sc.FailStart == "" {
+			x.l.FatalAt = sc.FatalAccept
+		}
 	}
 	for ci, c := range sc.Clients {
 		for oi, op := range c.Ops {
@@ -1106,6 +1114,7 @@ func (x *run) judge(outcome string) {
 		}
 	}
 	const notStarted = "dns: server not started"
+	const fatalAcceptErr = "accept tcp 10.0.0.1:53: accept4: too many open files in system"
 	const already = "dns: server already started"
 	// S5 / S4 for starts: exactly one start serves, the others are refused
 	served := 0
@@ -1119,6 +1128,13 @@ func (x *run) judge(outcome string) {
 		case "":
 			served++
 			res.Bump("oracle.S4_serve_nil")
+		case fatalAcceptErr:
+			// the listener broke for good: the serve call reports that
+			served++
+			res.Bump("probe.serve_ended_by_fatal_accept_error")
+			if sc.FatalAccept == 0 {
+				res.Fail("S4", "serve-error", "%s returned %q although the listener never failed", c.name, c.err)
+			}
 		default:
 			res.Fail("S4", "serve-error", "%s returned %q after shutdown, want nil", c.name, c.err)
 		}
